@@ -397,6 +397,8 @@ def derived_series_ob():
                 for b in names:
                     inst.register_buffer(b, Tensor.input('old_' + b, (N_, T_), torch.float64))
                 inst.volatility, inst.variance            # read once on the old data
+                if 'sigma' in kw:
+                    inst.sigma = SReal(tm.var('sg2'))     # the user changes the volatility parameter before simulating again
                 for b in names:
                     inst.register_buffer(b, Tensor.input('new_' + b, (N_, T_), torch.float64))
                 out[cls.__name__] = (inst.volatility, inst.variance, names)
@@ -418,8 +420,8 @@ def derived_series_ob():
                 want_vol = tm.sel('new_volatility', n, j)
                 want_var = tm.powt(want_vol, tm.const(2, 'I'))
             else:
-                want_vol = tm.var('sg')
-                want_var = tm.powt(tm.var('sg'), tm.const(2, 'I'))
+                want_vol = tm.var('sg2')
+                want_var = tm.powt(tm.var('sg2'), tm.const(2, 'I'))
             for (nm, got, want) in (('volatility', vol, want_vol), ('variance', var, want_var)):
                 r = smt.prove([], tm.eq(got.at((n, j)), want), timeout_ms=5000)
                 if r.status != 'unsat' or tuple(got._shape) != (N_, T_):
@@ -439,6 +441,10 @@ for cls in (pi.HestonStock, pi.RoughBergomiStock):
     if p.volatility.shape != p.variance.shape or not torch.allclose(p.volatility, p.variance.clamp(min=0).sqrt()): bad.append((cls.__name__, "stale volatility"))
     p.to(torch.float32)
     if p.volatility.dtype != torch.float32: bad.append((cls.__name__, "dtype"))
+# constant-volatility stock: parameter changed between two simulations of the same shape
+b_ = pi.BrownianStock(sigma=0.2, dtype=torch.float64); b_.simulate(n_paths=3, time_horizon=0.05); b_.volatility; b_.variance
+b_.sigma = 0.4; b_.simulate(n_paths=3, time_horizon=0.05)
+if not torch.allclose(b_.volatility, torch.full_like(b_.spot, 0.4)) or not torch.allclose(b_.variance, torch.full_like(b_.spot, 0.16)): bad.append(("BrownianStock", "volatility %.3f / variance %.3f after sigma was set to 0.4" % (float(b_.volatility[0, 0]), float(b_.variance[0, 0]))))
 # variance buffer with exact zeros (the QE scheme's atom at zero) and tiny values: volatility must be exactly sqrt(variance)
 for dt_ in (torch.float64, torch.float32):
     p = pi.HestonStock(dtype=dt_); p.simulate(n_paths=2, time_horizon=0.02)
